@@ -173,12 +173,21 @@ var nodeFixtures = map[string]*nodeFix{}
 // getNodeFixture builds the short block tree (trunk T1..T5, start T3, fork
 // B2..B7 from T1) or the long one (trunk of 2005 blocks, start 2002, fork of 6
 // from 2000), which reaches filter checkpoints (every 1000 blocks).
-func getNodeFixture(long bool) *nodeFix {
+func getNodeFixture(long, gap bool) *nodeFix {
 	key := "short"
 	trunkLen, start, forkFrom := int32(5), int32(3), int32(1)
 	if long {
 		key = "long"
 		trunkLen, start, forkFrom = 2005, 2002, 2000
+	}
+	if long && gap {
+		// block 2001 comes ten days after block 2000: a client that has the
+		// first 2000 headers (one headers message) is not current yet, so
+		// the checkpointed filter header sync runs while the block headers
+		// are still behind - the state of a real initial sync
+		key = "long-gap"
+		// ... and the honest chain has just these 2000 blocks at the start
+		start = 2000
 	}
 	if f := nodeFixtures[key]; f != nil {
 		return f
@@ -196,6 +205,9 @@ func getNodeFixture(long bool) *nodeFix {
 		spacing := 10 * time.Minute
 		if i == 1 {
 			spacing = 48 * time.Hour
+		}
+		if key == "long-gap" && i == 2001 {
+			spacing = 240 * time.Hour
 		}
 		n, d := verifchain.MineBlock(p, cur, spacing, 1, fmt.Sprintf("T%d", i))
 		f.trunk = append(f.trunk, n)
@@ -744,6 +756,8 @@ type nodeAct struct {
 	name string
 	cost int
 	run  func()
+	// burst: the step may carry one scheduler or select deviation
+	burst bool
 }
 
 func (h *nodeH) peerByAddr(a string) *nodePeer {
@@ -1150,6 +1164,8 @@ type nodeMode struct {
 	delays     bool // every step may carry one scheduler deviation (delay-bounded scheduling inside the burst)
 	// only the step in which Stop is called may carry one
 	delaysAtStopOnly bool
+	onlyStops        bool // no deviation but Stop (and a scheduler deviation in its step)
+	gap              bool // long chain whose last blocks are days apart (client not current after 2000 headers)
 }
 
 var nodeModes = map[string]nodeMode{
@@ -1173,6 +1189,10 @@ var nodeModes = map[string]nodeMode{
 	"C05N": {name: "C05", calls: true, behaviours: []string{"false-cfilter", "bad-block", "false-cfheaders", "honest", "silent"}},
 	"C19N": {name: "C19", subs: true, behaviours: []string{"honest", "silent", "invalid-header", "lighter-fork", "false-cfheaders", "drops-on-cf"}},
 	"C19L": {name: "C19", subs: true, long: true, behaviours: []string{"honest", "false-cfheaders", "silent", "drops-on-cf"}},
+	// Stop in the middle of an initial sync over a long chain: the
+	// checkpointed filter header download runs while block headers are
+	// not current
+	"C17L": {name: "C17", behaviours: []string{"honest"}, stops: true, long: true, gap: true, onlyStops: true},
 	"C03L": {name: "C03", behaviours: []string{"false-cfheaders", "false-cfheaders-true-filter", "short-cfcheckpt", "false-prev-header", "silent", "drops-on-cf", "honest"}, long: true},
 }
 
@@ -1213,6 +1233,11 @@ func nodeRun(c *verifeng.Chooser, f *nodeFix, env *verifhfs.Env, mode nodeMode, 
 	for i, p := range h.peers {
 		p.idx = i
 		p.addr = fmt.Sprintf("10.0.0.%d:18444", i+1)
+		if mode.name == "C13" && nadv == 2 && p != honestPeer {
+			// the two adversaries are two nodes on one host: same IP
+			// address (which is what a ban records), different ports
+			p.addr = fmt.Sprintf("10.0.0.9:%d", 18444+i)
+		}
 		addrs = append(addrs, p.addr)
 		names = append(names, fmt.Sprintf("%s=%s@%d", p.name, p.behaviour, p.lieAt))
 	}
@@ -1326,7 +1351,7 @@ func nodeRun(c *verifeng.Chooser, f *nodeFix, env *verifhfs.Env, mode nodeMode, 
 	steps := 0
 	stopNow := false
 	lastProgress := ""
-	if mode.delays {
+	if mode.delays || mode.delaysAtStopOnly {
 		h.burst = verifbubble.NewBurst(c)
 	}
 	for !c.Failed() {
@@ -1392,6 +1417,9 @@ func nodeRun(c *verifeng.Chooser, f *nodeFix, env *verifhfs.Env, mode nodeMode, 
 		case len(acts) > 0:
 			menu = append(menu, acts[0])
 			for _, a := range acts[1:] {
+				if mode.onlyStops {
+					break
+				}
 				a.cost = 1
 				a.name += " (out of turn)"
 				menu = append(menu, a)
@@ -1440,19 +1468,19 @@ func nodeRun(c *verifeng.Chooser, f *nodeFix, env *verifhfs.Env, mode nodeMode, 
 		}
 		// deviations
 		if len(acts) > 0 {
-			if next < len(script) && !mode.noEarly {
+			if next < len(script) && !mode.noEarly && !mode.onlyStops {
 				menu = append(menu, nodeAct{name: script[next].name + " (while the node is busy)", cost: 1, run: fire(script[next])})
 			}
 			// the honest remote of the statement answers promptly:
 			// time only passes while nothing is waiting for it
-			if !h.honestBusy() && !mode.noEarly {
+			if !h.honestBusy() && !mode.noEarly && !mode.onlyStops {
 				menu = append(menu, nodeAct{name: "5 s pass (while requests are pending)", cost: 1, run: func() { time.Sleep(5 * time.Second) }})
 			}
 		}
 		for _, p := range h.peers {
 			cn := h.liveConn(p)
 			// the honest remote of the statement stays connected
-			if cn == nil || !cn.ready || p.name == "H" || mode.noEarly {
+			if cn == nil || !cn.ready || p.name == "H" || mode.noEarly || mode.onlyStops {
 				continue
 			}
 			menu = append(menu, nodeAct{name: p.name + " drops the connection", cost: 1, run: func() { p.dropped = true; cn.c.Close() }})
@@ -1465,12 +1493,16 @@ func nodeRun(c *verifeng.Chooser, f *nodeFix, env *verifhfs.Env, mode nodeMode, 
 				// between is the scheduler's, but it is not the
 				// sequential order of the plain Stop above
 				first := acts[0]
-				menu = append(menu, nodeAct{name: "Stop is called and, before anything else happens, " + first.name, cost: 1, run: func() {
+				// in the step in which Stop meets an answer the order
+				// of the goroutines involved is a further dimension
+				// (quick tier: during the initial sync only)
+				bst := mode.delaysAtStopOnly && (next == 0 || verifeng.Tier() == "thorough")
+				menu = append(menu, nodeAct{name: "Stop is called and, before anything else happens, " + first.name, cost: 1, burst: bst, run: func() {
 					h.stopTask = verifbubble.Go("Stop", func() (any, error) { return nil, h.cs.Stop() })
 					first.run()
 					stopNow = true
 				}})
-				menu = append(menu, nodeAct{name: first.name + " and, before the client has reacted, Stop is called", cost: 1, run: func() {
+				menu = append(menu, nodeAct{name: first.name + " and, before the client has reacted, Stop is called", cost: 1, burst: bst, run: func() {
 					h.noWait = true
 					first.run()
 					h.noWait = false
@@ -1484,7 +1516,7 @@ func nodeRun(c *verifeng.Chooser, f *nodeFix, env *verifhfs.Env, mode nodeMode, 
 		}
 		k := c.ChooseCosts(costs, "step")
 		a := menu[k]
-		if a.run != nil && !mode.delaysAtStopOnly {
+		if a.run != nil && (!mode.delaysAtStopOnly || a.burst) {
 			a.name += h.burst.Begin()
 		}
 		c.Step("%s", a.name)
@@ -1495,7 +1527,9 @@ func nodeRun(c *verifeng.Chooser, f *nodeFix, env *verifhfs.Env, mode nodeMode, 
 			break
 		}
 	}
-	h.burst.Off()
+	if !stopNow {
+		h.burst.Off()
+	}
 	if c.Failed() {
 		return
 	}
@@ -2020,6 +2054,7 @@ func (h *nodeH) stop(check bool) {
 	waited := 0
 	for ; waited < 600 && !tk.Done(); waited += 5 {
 		verifbubble.Wait()
+		h.burst.End()
 		if tk.Done() {
 			break
 		}
@@ -2128,7 +2163,7 @@ func (h *nodeH) reopen() {
 }
 
 func nodeBody(t *testing.T, mode nodeMode, nadv int) func(c *verifeng.Chooser) {
-	f := getNodeFixture(mode.long)
+	f := getNodeFixture(mode.long, mode.gap)
 	return func(c *verifeng.Chooser) {
 		var env *verifhfs.Env
 		out := verifbubble.Run(t, func() {
@@ -2173,6 +2208,19 @@ func runNode(t *testing.T, harness, modeName string) {
 		if tier == "thorough" {
 			cfgs = []nodeCfg{{2, 1}, {1, 2}}
 		}
+	}
+	if modeName == "C13" {
+		// second configuration: the default schedule for every pair of
+		// adversaries, which then share one IP address
+		cfgs = []nodeCfg{{2, 1}, {0, 2}}
+		if tier == "thorough" {
+			cfgs = []nodeCfg{{3, 1}, {2, 2}}
+		}
+	}
+	if modeName == "C17L" {
+		// Stop (alone, or overlapping the next answer in either
+		// order) is the only deviation
+		cfgs = []nodeCfg{{1, 1}}
 	}
 	if modeName == "C04L" || modeName == "C19L" {
 		cfgs = []nodeCfg{{1, 1}}
@@ -2232,6 +2280,7 @@ func TestVFXC04(t *testing.T)  { runNode(t, "C04-node", "C04") }
 func TestVFXC04D(t *testing.T) { runNode(t, "C04-node-delays", "C04D") }
 func TestVFXC13N(t *testing.T) { runNode(t, "C13-node", "C13") }
 func TestVFXC17(t *testing.T)  { runNode(t, "C17-node", "C17") }
+func TestVFXC17L(t *testing.T) { runNode(t, "C17-long-chain", "C17L") }
 func TestVFXC15N(t *testing.T) { runNode(t, "C15-node", "C15") }
 func TestVFXC03L(t *testing.T) { runNode(t, "C03-long-chain", "C03L") }
 func TestVFXC04L(t *testing.T) { runNode(t, "C04-long-chain", "C04L") }
